@@ -24,17 +24,18 @@ Emit == PrintT("@@J@@" \\o ToJson([case |-> c, exp |-> {expected}(c)]))
 
 def enumerate_families(ctx: Ctx, engine: str, module: str, families: list[str], *, constants: dict | None = None,
                        invariants=(), expected: str = "Expected", timeout: int = 900, name: str | None = None,
-                       workers: int | str = "auto") -> list[dict]:
+                       workers: int | str = "auto", emit: bool = True) -> list[dict]:
     wd = ctx.wd.stage(engine)
-    init = " \\/ ".join(f"c \\in {f}" for f in families)
+    # a family is a set expression; one written with a leading "\\E" is taken as a complete disjunct over c
+    init = " \\/ ".join(f"({f})" if f.lstrip().startswith("\\E") else f"c \\in {f}" for f in families)
     invs = "\n".join(f"Inv_{x} == {x}(c)" for x in invariants)
     (wd / f"{module}_Enum.tla").write_text(ENUM.format(m=module, init=init, expected=expected, invs=invs))
     sany(wd, f"{module}_Enum")
     cfg = render_cfg(init_next=("EnumInit", "EnumNext"), constants=constants,
-                     invariants=[f"Inv_{x}" for x in invariants] + ["Emit"])
+                     invariants=[f"Inv_{x}" for x in invariants] + (["Emit"] if emit else []))
     r = run_tlc(wd, f"{module}_Enum", cfg, timeout=timeout, cfg_name=f"{module}_{name or 'enum'}.cfg", workers=workers)
     ctx.add_tlc(name or f"{module}:enumerate", r)
     require_ok(r, f"{module} enumeration / table invariants {list(invariants)}")
-    if len(r.json_lines) != r.distinct:
+    if emit and len(r.json_lines) != r.distinct:
         raise MachineryError(f"{module}: {r.distinct} cases but {len(r.json_lines)} emitted")
     return r.json_lines
